@@ -97,6 +97,14 @@ class Arena:
             gs.poll(0.05)
         applied = []
         for c in sched:
+            if c == "h":
+                # SIGHUP: qmail-send rereads locals/virtualdomains at the top of its loop; it must not lose a pending trigger
+                os.kill(d.send_pid, 1); applied.append("h:SIGHUP")
+                end = time.time() + 0.3
+                while time.time() < end:
+                    gs.poll(0.02); d.pump(0.0)
+                    if d.send_pid in gs.pending: break
+                continue
             pid = d.send_pid if c == "d" else pids[c]
             if pid not in gs.pending:
                 gs.poll(0.02)
@@ -224,13 +232,27 @@ def main():
         if e <= 0:
             fails.append(("send:zero-timeout-when-idle", dict(kind="history", state=l, select_timeout=e), 0))
 
+    # ---------------------------------------------------------------- 1b. no busy loop while a channel is saturated in the middle of a pass
+    import queue_common as qc
+    W2 = qc.World(rb, "sat", conc=(1, 4))
+    R2 = qc.Runner(W2, {b"s1@local.example": [None], b"s2@local.example": [b"K"], b"t1@local.example": [b"K"]}); R2.start(); R2.service(0.3)
+    R2.inject(b"s@x.example", [b"s1@local.example", b"s2@local.example"]); R2.service(0.3)      # the only local slot is now taken and never answered
+    R2.inject(b"s@x.example", [b"t1@local.example"]); R2.service(0.3)                           # a second message is due on the same channel
+    n0 = sum(1 for l in W2.loglines() if l.startswith("%d select tv=" % W2.d.send_pid))
+    time.sleep(0.5)
+    sel = [l for l in W2.loglines() if l.startswith("%d select tv=" % W2.d.send_pid)][n0:]
+    ck.evaluated(); ck.nontrivial("saturated-pass"); ck.count("saturated_pass_selects", len(sel))
+    if len(sel) > 5:
+        fails.append(("send:busy-loop-with-stalled-pass", dict(kind="history", scenario="concurrencylocal=1, first delivery of a two-recipient message never reported, second message due on the same channel",
+                                                               selects_in_half_a_second=len(sel), timeouts=sorted(set(x.split("tv=")[1] for x in sel))[:5]), 0))
+    R2.kill()
     # ---------------------------------------------------------------- 2. gated schedules on the real processes
     ar = Arena(rb, home, ck)
     model_cex = None
     def try_sched(s, origin):
         r = ar.run_schedule(s)
         ck.evaluated(); ck.nontrivial(s); ck.count("schedules_" + origin)
-        done = all(v == 0 for v in r["exit"].values()) and len(r["exit"]) == len(set(s) - {"d"})
+        done = all(v == 0 for v in r["exit"].values()) and len(r["exit"]) == len(set(s) - {"d", "h"})
         if done and r["todo_left"]:
             fails.append(("lost-wakeup", dict(kind="schedule", schedule=s, origin=origin, detail=r,
                                               meaning="letters: a/b = release the next gated call (link todo, open/write/close lock/trigger) of injection a/b; d = release the daemon's next gated call (select, close/open lock/trigger, opendir todo, readdir); afterwards everything ran free: the injections had exited 0, the entries named in todo_left were still in todo/ and qmail-send was blocked in select (periodic rescan 1500 s away)"), len(s)))
@@ -258,7 +280,9 @@ def main():
         fixed = ["aaaa" + "d" * k + "bbbb" + "d" * (dsteps - k) for k in range(dsteps + 1)] + \
                 ["aaaa" + "d" * k + "bbb" + "d" * (dsteps - k) + "b" for k in range(dsteps)] + \
                 ["aaaa" + "d" * k + "b" + "d" * (dsteps - k) + "bbb" for k in range(dsteps)] + \
-                ["a" + "d" * 3 + "aaa" + "d" * 8, "aaa" + "d" * 9 + "a", "d" * 4 + "aaaa" + "d" * 8, "aa" + "d" * 6 + "aa" + "d" * 6]
+                ["a" + "d" * 3 + "aaa" + "d" * 8, "aaa" + "d" * 9 + "a", "d" * 4 + "aaaa" + "d" * 8, "aa" + "d" * 6 + "aa" + "d" * 6] + \
+                ["d" + "h" + "aaaa" + "d" * 10] + \
+                ["dh" + "d" * k + "aaaa" + "d" * 10 for k in (1, 2, 3)] + ["dhaa" + "d" + "aa" + "d" * 10, "aaaa" + "dd" + "h" + "bbbb" + "d" * 12, "dh" + "a" + "dd" + "aaa" + "d" * 10]
         n_rand = 400 if ck.thorough else 12
         chosen = fixed + [all_s[rng.randrange(len(all_s))] for _ in range(n_rand)]
         if ck.thorough: chosen = fixed + all_s
